@@ -3,6 +3,8 @@ import Mathlib.RingTheory.PowerSeries.Basic
 import Mathlib.RingTheory.PowerSeries.Derivative
 import Mathlib.RingTheory.PowerSeries.Inverse
 import Mathlib.RingTheory.PowerSeries.NoZeroDivisors
+import Mathlib.RingTheory.RootsOfUnity.PrimitiveRoots
+import Mathlib.Algebra.Ring.GeomSum
 import Mathlib.Tactic.Ring
 import Mathlib.Tactic.FieldSimp
 import Mathlib.Tactic.LinearCombination
@@ -609,4 +611,333 @@ theorem spec1 (l N : ℕ) (hl : l ≤ N) :
         rw [dftSum_congr _ (fun _ => 0) 1 N (fun n hn => by simp; intro; omega), dftSum_zero]
       rw [z]; simp [h1, e]
 
+section dftsound
+variable [DecidableEq K]
+
+omit [DecidableEq K] in
+/-- the value of a step-like term at n ≥ 0 -/
+theorem steplike_val (t : CTerm K) (l : ℕ)
+    (hb : t.base = .one ∧ l = 0 ∨ ∃ d : ℤ, t.base = .step d ∧ l = d.toNat) (n : ℕ) :
+    t.val n = t.coef * ((n : K) ^ t.p * (if l ≤ n then t.a ^ n else 0)) := by
+  rcases hb with ⟨hb, rfl⟩ | ⟨d, hb, rfl⟩
+  · simp [CTerm.val, hb, Base.val]; ring
+  · simp only [CTerm.val, hb, Base.val, powK_eq, intK_eq, zpowK_eq, Int.cast_natCast, zpow_natCast]
+    have : (d ≤ (n : ℤ)) ↔ d.toNat ≤ n := by omega
+    simp only [this]
+    split_ifs <;> ring
+
+theorem dft_steplike_sound (numeric : Bool) (t : CTerm K) (N : ℕ) (q : K) (hq : q ^ N = 1)
+    (h2 : (1 + 1 : K) ≠ 0) (l : ℕ)
+    (hb : t.base = .one ∧ l = 0 ∨ ∃ d : ℤ, t.base = .step d ∧ l = d.toNat)
+    (hsym : numeric = false → l ≤ N)
+    (v : K) (hv : dftTerm numeric t N q = some v) :
+    v = dftSum (fun n => t.val n) q N := by
+  rw [dftSum_congr _ _ q N (fun n _ => steplike_val t l hb n), dftSum_smul]
+  have hl' : (match t.base with | .step d => d.toNat | _ => 0) = l := by
+    rcases hb with ⟨hb, rfl⟩ | ⟨d, hb, rfl⟩ <;> simp [hb]
+  have hv' : (if numeric = true ∧ N ≤ l then some 0 else
+      (if t.a = 1 then (if q = 1 then dftGeoSpecial t.p l N else dftGeoGeneral t.p l N q 1)
+        else dftGeoGeneral t.p l N (t.a * q) (powK t.a N)).map (fun v => t.coef * v)) = some v := by
+    rcases hb with ⟨hb, rfl⟩ | ⟨d, hb, rfl⟩ <;> simpa [dftTerm, hb] using hv
+  clear hv hl'
+  by_cases hN : numeric = true ∧ N ≤ l
+  · simp only [hN, and_self, ↓reduceIte, Option.some.injEq] at hv'
+    rw [← hv', dftSum_congr _ (fun _ => 0) q N (fun n hn => by
+      have : ¬ l ≤ n := by omega
+      simp [this]), dftSum_zero]
+    simp
+  · have hl : l ≤ N := by
+      by_cases hn : numeric = true
+      · simp only [hn, true_and, not_le] at hN; omega
+      · exact hsym (by simpa using hn)
+    simp only [hN, ↓reduceIte, Option.map_eq_some_iff] at hv'
+    obtain ⟨w, hw, rfl⟩ := hv'
+    congr 1
+    by_cases ha : t.a = 1
+    · simp only [ha, ↓reduceIte, one_pow] at hw ⊢
+      by_cases hq1 : q = 1
+      · subst hq1
+        simp only [↓reduceIte, dftGeoSpecial] at hw
+        rcases hp : t.p with _ | _ | p
+        · simp only [hp, Option.some.injEq, natK_eq] at hw
+          rw [← hw, ← spec0 l N hl]
+          exact dftSum_congr _ _ _ _ (fun n _ => by simp)
+        · simp only [hp, Option.some.injEq, natK_eq] at hw
+          have := spec1 (K := K) l N hl
+          have e : dftSum (fun n : ℕ => (n : K) ^ (0 + 1) * if l ≤ n then (1 : K) else 0) 1 N
+              = dftSum (fun n : ℕ => if l ≤ n then (n : K) else 0) 1 N :=
+            dftSum_congr _ _ _ _ (fun n _ => by split_ifs <;> simp)
+          rw [← hw, e, div_eq_iff h2, ← this]; ring
+        · simp [hp] at hw
+      · simp only [hq1, ↓reduceIte, dftGeoGeneral] at hw
+        have h1 : (1 : K) - 1 * q ≠ 0 := by
+          intro h; apply hq1; linear_combination -h
+        have h1' : ¬ ((1 : K) - q = 0) := by simpa using h1
+        simp only [h1', ↓reduceIte] at hw
+        rcases hp : t.p with _ | _ | p
+        · simp only [hp, Option.some.injEq, powK_eq] at hw
+          have := geo0 1 q h1 l N hl
+          simp only [one_pow, one_mul, hq] at this
+          rw [← hw, ← this]
+          exact dftSum_congr _ _ _ _ (fun n _ => by simp)
+        · simp only [hp, Option.some.injEq, powK_eq, natK_eq] at hw
+          have := geo1 1 q h1 l N hl
+          simp only [one_pow, one_mul, hq, mul_one] at this
+          have e : dftSum (fun n : ℕ => (n : K) ^ (0 + 1) * if l ≤ n then (1 : K) else 0) q N
+              = dftSum (fun n : ℕ => if l ≤ n then (n : K) else 0) q N :=
+            dftSum_congr _ _ _ _ (fun n _ => by split_ifs <;> simp)
+          rw [← hw, e, this]; ring
+        · simp [hp] at hw
+    · simp only [ha, ↓reduceIte, dftGeoGeneral] at hw
+      by_cases h1 : (1 : K) - t.a * q = 0
+      · simp [h1] at hw
+      · simp only [h1, ↓reduceIte] at hw
+        have hN' : (t.a * q) ^ N = t.a ^ N := by rw [mul_pow, hq, mul_one]
+        rcases hp : t.p with _ | _ | p
+        · simp only [hp, Option.some.injEq, powK_eq] at hw
+          have := geo0 t.a q h1 l N hl
+          rw [hN'] at this
+          rw [← hw, ← this]
+          exact dftSum_congr _ _ _ _ (fun n _ => by simp)
+        · simp only [hp, Option.some.injEq, powK_eq, natK_eq] at hw
+          have := geo1 t.a q h1 l N hl
+          rw [hN'] at this
+          rw [← hw, ← this]
+          exact dftSum_congr _ _ _ _ (fun n _ => by split_ifs <;> simp)
+        · simp [hp] at hw
+
+end dftsound
+
+theorem dftSum_single (m : ℕ) (y q : K) (N : ℕ) :
+    dftSum (fun n => if n = m then y else 0) q N = if m < N then y * q ^ m else 0 := by
+  induction N with
+  | zero => simp [dftSum]
+  | succ N ih =>
+    simp only [dftSum, ih, powK_eq]
+    by_cases h1 : m < N
+    · have : N ≠ m := by omega
+      simp [h1, this, Nat.lt_succ_of_lt h1]
+    · by_cases h2 : N = m
+      · subst h2; simp
+      · have : ¬ m < N + 1 := by omega
+        simp [h1, h2, this]
+
+section dftsound2
+variable [DecidableEq K]
+
+theorem dft_imp_sound (numeric : Bool) (t : CTerm K) (N : ℕ) (q : K) (hq : q ^ N = 1) (d : ℤ)
+    (hb : t.base = .imp d)
+    (hok : ¬ (numeric = true ∧ (N : ℤ) < 2 * d) ∨ (t.p = 0 ∧ t.a = 1))
+    (v : K) (hv : dftTerm numeric t N q = some v) :
+    v = dftSum (fun n => t.val n) q N := by
+  simp only [dftTerm, hb] at hv
+  by_cases hr : 0 ≤ d ∧ d < N
+  · obtain ⟨m, rfl⟩ : ∃ m : ℕ, d = m := ⟨d.toNat, by omega⟩
+    have hm : m < N := by omega
+    have hval : ∀ n : ℕ, t.val n = if n = m then t.coef * (m : K) ^ t.p * t.a ^ m else 0 := by
+      intro n
+      simp only [CTerm.val, hb, Base.val, powK_eq, intK_eq, zpowK_eq, Int.cast_natCast, zpow_natCast,
+        Nat.cast_inj]
+      split_ifs with h <;> simp [h]
+    rw [dftSum_congr _ _ q N (fun n _ => hval n), dftSum_single]
+    simp only [hr, and_self, ↓reduceIte, Option.some.injEq, hm] at hv ⊢
+    rw [← hv]
+    by_cases hw : numeric = true ∧ (N : ℤ) < 2 * (m : ℤ)
+    · rcases hok with hok | ⟨hp, ha⟩
+      · exact absurd hw hok
+      · have hq0 : q ≠ 0 := by
+          intro h0; rw [h0, zero_pow (by omega)] at hq; exact zero_ne_one hq
+        simp only [hw, and_self, ↓reduceIte, hp, ha, powK_eq, pow_zero, zpowK_eq, one_zpow, mul_one,
+          one_pow]
+        rw [zpow_sub₀ hq0, zpow_natCast, zpow_natCast, hq, div_one]
+    · simp only [hw, ↓reduceIte, powK_eq, intK_eq, zpowK_eq, Int.cast_natCast, zpow_natCast]
+  · simp only [hr, ↓reduceIte, Option.some.injEq] at hv
+    rw [← hv, dftSum_congr _ (fun _ => 0) q N (fun n hn => by
+      have : ¬ ((n : ℤ) = d) := by omega
+      simp [CTerm.val, hb, Base.val, this]), dftSum_zero]
+
+/-- all terms of a signal: if the model returns a value it is the defining sum -/
+def dftOk (numeric : Bool) (N : ℕ) (t : CTerm K) : Prop :=
+  match t.base with
+  | .imp d => ¬ (numeric = true ∧ (N : ℤ) < 2 * d) ∨ (t.p = 0 ∧ t.a = 1)
+  | .step d => numeric = false → d.toNat ≤ N
+  | _ => True
+
+theorem dft_term_sound (numeric : Bool) (t : CTerm K) (N : ℕ) (q : K) (hq : q ^ N = 1)
+    (h2 : (1 + 1 : K) ≠ 0) (hok : dftOk numeric N t)
+    (v : K) (hv : dftTerm numeric t N q = some v) :
+    v = dftSum (fun n => t.val n) q N := by
+  rcases hb : t.base with d | d | _ | _ | _
+  · exact dft_imp_sound numeric t N q hq d hb (by simpa [dftOk, hb] using hok) v hv
+  · exact dft_steplike_sound numeric t N q hq h2 d.toNat (Or.inr ⟨d, hb, rfl⟩)
+      (by simpa [dftOk, hb] using hok) v hv
+  · exact dft_steplike_sound numeric t N q hq h2 0 (Or.inl ⟨hb, rfl⟩) (by simp) v hv
+  · simp [dftTerm, hb] at hv
+  · simp [dftTerm, hb] at hv
+
+theorem dft_sig_sound (numeric : Bool) (ts : List (CTerm K)) (N : ℕ) (q : K) (hq : q ^ N = 1)
+    (h2 : (1 + 1 : K) ≠ 0) (hok : ∀ t ∈ ts, dftOk numeric N t)
+    (v : K) (hv : dftSig numeric ts N q = some v) :
+    v = dftSum (fun n => sigVal ts n) q N := by
+  induction ts generalizing v with
+  | nil =>
+    simp [dftSig] at hv
+    rw [← hv]; simp [sigVal, dftSum_zero]
+  | cons t ts ih =>
+    simp only [dftSig] at hv
+    rcases h1 : dftTerm numeric t N q with _ | a
+    · simp [h1] at hv
+    · rcases h3 : dftSig numeric ts N q with _ | b
+      · simp [h1, h3] at hv
+      · simp [h1, h3] at hv
+        have e1 := dft_term_sound numeric t N q hq h2 (hok t (by simp)) a h1
+        have e2 := ih (fun t ht => hok t (by simp [ht])) b h3
+        rw [← hv, e1, e2, ← dftSum_add]
+        simp [sigVal]
+
+end dftsound2
+section orth
+open Finset
+
+theorem dftSum_eq_sum (x : ℕ → K) (q : K) (N : ℕ) :
+    dftSum x q N = ∑ i ∈ range N, x i * q ^ i := by
+  induction N with
+  | zero => simp [dftSum]
+  | succ N ih => simp [dftSum, ih, sum_range_succ]
+
+/-- orthogonality of the N-th roots of unity -/
+theorem root_orth (N : ℕ) (ω : K) (hω : IsPrimitiveRoot ω N) (m n : ℕ) (hm : m < N) (hn : n < N) :
+    ∑ k ∈ range N, (ω ^ k) ^ m * ((ω⁻¹) ^ n) ^ k = if m = n then (N : K) else 0 := by
+  have hω0 : ω ≠ 0 := hω.ne_zero (by omega)
+  have e : ∀ k, (ω ^ k) ^ m * ((ω⁻¹) ^ n) ^ k = (ω ^ m * (ω⁻¹) ^ n) ^ k := by
+    intro k; rw [mul_pow, ← pow_mul, ← pow_mul, ← pow_mul, mul_comm k m]
+  simp only [e]
+  by_cases h : m = n
+  · subst h
+    have : ω ^ m * ω⁻¹ ^ m = 1 := by rw [← mul_pow, mul_inv_cancel₀ hω0, one_pow]
+    simp only [this, one_pow, sum_const, card_range, ↓reduceIte, nsmul_eq_mul, mul_one]
+  · simp only [h, ↓reduceIte]
+    set ζ := ω ^ m * (ω⁻¹) ^ n with hζ
+    have hζN : ζ ^ N = 1 := by
+      rw [hζ, mul_pow, ← pow_mul, ← pow_mul, mul_comm m N, mul_comm n N, pow_mul, pow_mul, hω.pow_eq_one,
+        inv_pow, hω.pow_eq_one]; simp
+    have hζ1 : ζ - 1 ≠ 0 := by
+      intro h1
+      apply h
+      apply hω.pow_inj hm hn
+      have : ζ = 1 := by linear_combination h1
+      rw [hζ, inv_pow] at this
+      field_simp at this
+      exact this
+    have := geom_sum_mul ζ N
+    rw [hζN, sub_self] at this
+    exact (mul_eq_zero.mp this).resolve_right hζ1
+
+/-- the inverse DFT sum applied to the DFT returns `N x[n]` -/
+theorem idft_dft' (N : ℕ) (ω : K) (hω : IsPrimitiveRoot ω N) (x : ℕ → K) (n : ℕ) (hn : n < N) :
+    dftSum (fun k => dftSum x (ω ^ k) N) ((ω⁻¹) ^ n) N = (N : K) * x n := by
+  simp only [dftSum_eq_sum]
+  simp only [sum_mul]
+  rw [sum_comm]
+  have : ∀ m ∈ range N, ∑ k ∈ range N, x m * (ω ^ k) ^ m * ((ω⁻¹) ^ n) ^ k
+      = x m * (if m = n then (N : K) else 0) := by
+    intro m hm
+    rw [← root_orth N ω hω m n (mem_range.mp hm) hn, mul_sum]
+    apply sum_congr rfl; intro k _; ring
+  rw [sum_congr rfl this]
+  simp [hn]; ring
+
+end orth
+section ini
+open PowerSeries
+
+/-- the two-sided sequence that is `l[i]` at index `-1-i` and 0 at n ≥ 0 -/
+def negSeq (l : List K) : ℤ → K := fun i => if 0 ≤ i then 0 else l.getD (-i - 1).toNat 0
+
+theorem dot_nil_right (c : List K) : dot c ([] : List K) = 0 := by cases c <;> simp [dot]
+
+theorem bsum_negSeq_neg (c l : List K) (j : ℕ) :
+    bsum c (negSeq l) (-1 - (j : ℤ)) = dot c (l.drop j) := by
+  induction c generalizing j with
+  | nil => simp [bsum, dot]
+  | cons c0 cs ih =>
+    have h1 : ¬ (0 ≤ -1 - (j : ℤ)) := by omega
+    have h2 : (-(-1 - (j : ℤ)) - 1).toNat = j := by omega
+    have h3 : -1 - (j : ℤ) - 1 = -1 - ((j + 1 : ℕ) : ℤ) := by push_cast; ring
+    simp only [bsum, negSeq, h1, h2, ↓reduceIte]
+    rw [h3, ih (j + 1)]
+    by_cases hj : j < l.length
+    · rw [List.drop_eq_getElem_cons hj, List.getD_eq_getElem _ _ hj]; simp [dot]
+    · have : l.length ≤ j := by omega
+      rw [List.drop_eq_nil_of_le this, List.drop_eq_nil_of_le (by omega), List.getD_eq_default _ _ this]
+      simp [dot_nil_right]
+
+theorem bsum_negSeq_pos (c l : List K) (m : ℕ) :
+    bsum c (negSeq l) (m : ℤ) = dot (c.drop (m + 1)) l := by
+  induction c generalizing m with
+  | nil => simp [bsum, dot]
+  | cons c0 cs ih =>
+    have h1 : (0 : ℤ) ≤ (m : ℤ) := by omega
+    simp only [bsum, negSeq, h1, ↓reduceIte, mul_zero, zero_add, List.drop_succ_cons]
+    cases m with
+    | zero =>
+      have := bsum_negSeq_neg cs l 0
+      simpa using this
+    | succ m =>
+      have : ((m + 1 : ℕ) : ℤ) - 1 = (m : ℤ) := by push_cast; ring
+      rw [this, ih m]
+
+theorem bsum_add (c : List K) (u v : ℤ → K) (i : ℤ) :
+    bsum c (fun j => u j + v j) i = bsum c u i + bsum c v i := by
+  induction c generalizing i with
+  | nil => simp [bsum]
+  | cons c0 cs ih => simp only [bsum, ih]; ring
+
+/-- zero-input response: with `x[n] = 0` for n ≥ 0, `x[-1-i] = xic[i]`, `y[-1-i] = ic[i]`, the output of the
+    recursion for n ≥ 0 has the z-transform `iniNum / a` (the model of `zdomain_initial_response`),
+    provided the filter has no more numerator than denominator coefficients. -/
+theorem initial_response_ps (b a ic xic : List K) (ha : a.headD 0 ≠ 0)
+    (hlen : a.length = ic.length + 1) (hb : b.length ≤ a.length) :
+    toPS a * PowerSeries.mk (fun n : ℕ => respY b a (negSeq xic) ic n) = toPS (iniNum b a ic xic) := by
+  ext n
+  rw [coeff_toPS_mul, coeff_toPS]
+  simp only [coeff_mk]
+  have hsplit : respY b a (negSeq xic) ic
+      = fun j => extZ (fun m : ℕ => respY b a (negSeq xic) ic m) j + negSeq ic j := by
+    funext j
+    by_cases hj : 0 ≤ j
+    · simp [extZ, negSeq, hj, Int.toNat_of_nonneg hj]
+    · simp [extZ, negSeq, hj, respY]
+  have hrec := resp_recursion b a (negSeq xic) ic ha hlen n
+  rw [hsplit, bsum_add, bsum_negSeq_pos, bsum_negSeq_pos] at hrec
+  have hval : (iniNum b a ic xic).getD n 0 = dot (b.drop (n + 1)) xic - dot (a.drop (n + 1)) ic := by
+    simp only [iniNum, List.take_of_length_le hb]
+    by_cases hn : n < a.length - 1
+    · rw [List.getD_eq_getElem _ _ (by simpa using hn)]; simp
+    · rw [List.getD_eq_default _ _ (by simpa using hn)]
+      rw [List.drop_eq_nil_of_le (by omega), List.drop_eq_nil_of_le (by omega)]
+      simp [dot]
+  rw [hval]
+  linear_combination hrec
+
+end ini
+section specexec
+variable [DecidableEq K]
+set_option linter.unusedSectionVars false
+
+theorem firstDiff_self (l : List K) (i : ℕ) : firstDiff l l i = none := by
+  induction l generalizing i with
+  | nil => simp [firstDiff]
+  | cons a l ih => simp [firstDiff, ih]
+
+/-- the executable spec predicate used by the oracle accepts exactly what `IsZT` describes:
+    on a closed form that is the z-transform it finds no wrong coefficient, for every bound N -/
+theorem ztSpecCheck_of_isZT (x : ℤ → K) (r : ZR K) (h : IsZT (fun n : ℕ => x n) r) (N : ℕ) :
+    ztSpecCheck x r N = none := by
+  obtain ⟨h0, h1, h2⟩ := h
+  have hs := series_eq_of_isZT (x := fun n : ℕ => x n) ⟨h0, h1, h2⟩ (N + 1)
+  simp only [ztSpecCheck, h2, ↓reduceIte, h0, Nat.zero_add, List.replicate_zero, List.nil_append, hs]
+  exact firstDiff_self _ 0
+
+end specexec
 end Lcapy.DT
